@@ -193,6 +193,8 @@ where
     /// <tag>value for VALUE_KEY field<tag>
     /// ```
     has_value_field: bool,
+    /// `true` once the `End` event that closes [`Self::start`] was consumed
+    finished: bool,
 }
 
 impl<'de, 'd, R, E> ElementMapAccess<'de, 'd, R, E>
@@ -213,7 +215,32 @@ where
             source: ValueSource::Unknown,
             fields,
             has_value_field: fields.contains(&VALUE_KEY),
+            finished: false,
         })
+    }
+
+    /// Gives a map representation of the `start` element to the `visitor` and
+    /// ensures that the whole element is consumed after that.
+    ///
+    /// A visitor is not obliged to read the map to the end. If it returns before
+    /// the `End` event of the element was reached, the rest of the element is
+    /// skipped here, so the deserializer always continues after the element.
+    pub fn deserialize<V>(
+        de: &'d mut Deserializer<'de, R, E>,
+        start: BytesStart<'de>,
+        fields: &'static [&'static str],
+        visitor: V,
+    ) -> Result<V::Value, DeError>
+    where
+        V: Visitor<'de>,
+    {
+        let mut map = Self::new(de, start, fields)?;
+        let value = visitor.visit_map(&mut map)?;
+        if !map.finished {
+            map.source = ValueSource::Unknown;
+            map.de.read_to_end(map.start.name())?;
+        }
+        Ok(value)
     }
 
     /// Determines if subtree started with the specified event shoould be skipped.
@@ -314,6 +341,7 @@ where
                     debug_assert_eq!(self.start.name(), e.name());
                     // Consume End
                     self.de.next()?;
+                    self.finished = true;
                     Ok(None)
                 }
                 // We cannot get `Eof` legally, because we always inside of the
@@ -795,7 +823,7 @@ where
         V: Visitor<'de>,
     {
         match self.map.de.next()? {
-            DeEvent::Start(e) => visitor.visit_map(ElementMapAccess::new(self.map.de, e, fields)?),
+            DeEvent::Start(e) => ElementMapAccess::deserialize(self.map.de, e, fields, visitor),
             DeEvent::Text(e) => {
                 SimpleTypeDeserializer::from_text_content(e).deserialize_struct("", fields, visitor)
             }
@@ -1120,7 +1148,7 @@ where
     where
         V: Visitor<'de>,
     {
-        visitor.visit_map(ElementMapAccess::new(self.de, self.start, fields)?)
+        ElementMapAccess::deserialize(self.de, self.start, fields, visitor)
     }
 
     fn deserialize_enum<V>(
